@@ -21,5 +21,20 @@ func NewLocation(f *fs.File, i bytes.Index) Location {
 		Quote: quote(f.Content(), i),
 	}
 	loc.Line, loc.Column = f.Content().LineAndColumn(i)
+	if loc.Line == 0 && i == f.Content().LenIndex() {
+		// The position right after the last byte of the file (i.e. an unexpected
+		// end of file): it also has a line and a column.
+		loc.Line, loc.Column = 1, 1
+		if i != 0 {
+			c := f.Content()
+			loc.Line, loc.Column = c.LineAndColumn(i - 1)
+			if c.Byte(i-1) == c.NewLineSymbol() {
+				loc.Line++
+				loc.Column = 1
+			} else {
+				loc.Column++
+			}
+		}
+	}
 	return loc
 }
